@@ -435,9 +435,14 @@ func (c *Cfg) genField(r *rand.Rand, depth int, sibOptional []string) *Field {
 			f.T = SliceOf(L(randElemKind(r)))
 			if depth < c.MaxDepth {
 				st := c.genStruct(r, depth+1, 1+r.Intn(3))
-				if r.Intn(3) == 0 {
+				switch r.Intn(6) {
+				case 0, 1:
 					f.T = SliceOf(PtrTo(st))
-				} else {
+				case 2:
+					f.T = SliceOf(SliceOf(st)) // containers nested directly in containers
+				case 3:
+					f.T = SliceOf(MapOf(st))
+				default:
 					f.T = SliceOf(st)
 				}
 			}
@@ -457,9 +462,14 @@ func (c *Cfg) genField(r *rand.Rand, depth int, sibOptional []string) *Field {
 			f.T = MapOf(L(randElemKind(r)))
 			if depth < c.MaxDepth {
 				st := c.genStruct(r, depth+1, 1+r.Intn(3))
-				if r.Intn(3) == 0 {
+				switch r.Intn(6) {
+				case 0, 1:
 					f.T = MapOf(PtrTo(st))
-				} else {
+				case 2:
+					f.T = MapOf(SliceOf(st))
+				case 3:
+					f.T = MapOf(MapOf(st))
+				default:
 					f.T = MapOf(st)
 				}
 			}
